@@ -187,6 +187,7 @@ class EscapeModel:
             raise AnalysisError('html.escape not found')
         self.always = set()
         self.when_quote = set()
+        self.pairs = []          # (char, entity) in application order
         self.quote_default = None
         a = fn.args
         names = [x.arg for x in a.args]
@@ -209,6 +210,10 @@ class EscapeModel:
                                 isinstance(c.args[0], ast.Constant):
                             (self.when_quote if under_quote
                              else self.always).add(c.args[0].value)
+                            if len(c.args) > 1 and isinstance(
+                                    c.args[1], ast.Constant):
+                                self.pairs.append((c.args[0].value,
+                                                   c.args[1].value))
         collect(fn.body, False)
         if not {'&', '<', '>'} <= self.always or not self.when_quote:
             raise AnalysisError('html.escape model: unexpected body')
